@@ -57,7 +57,10 @@ META = {
         "DirectiveParsingResult (and tuple-returning helpers) each removal of k leading body lines has `offset += k` in the same block and "
         "putting the directive-line text in front sets the offset to -1. R7: at START-convention sites every cut from the head of the text "
         "(lines slice, character prefix) is carried additively in the line argument and no plain re-assignment between a cut and the call "
-        "forgets it."
+        "forgets it; stripping leading blank lines from that text is an uncounted cut. R2 also checks, at every judged convention site, that "
+        "the text argument keeps its head (no strip()/lstrip() of newlines, no front slice) while the line argument is unchanged. "
+        "R8: a value returned by a package function that was given a line (L1/P kind) is not stored in a mapping that outlives the call "
+        "(module global, attribute, document/env) under a key that omits that line - a replay would carry the first occurrence's lines."
     ),
     "not_decided": (
         "the numeric truth of each line for all nestings (only unit/base/convention/pairing consistency); whether the token a node is "
@@ -80,7 +83,7 @@ META = {
     ],
 }
 
-R1, R2, R3, R4, R5, R6, R7 = "C04.R1", "C04.R2", "C04.R3", "C04.R4", "C04.R5", "C04.R6", "C04.R7"
+R1, R2, R3, R4, R5, R6, R7, R8 = "C04.R1", "C04.R2", "C04.R3", "C04.R4", "C04.R5", "C04.R6", "C04.R7", "C04.R8"
 
 
 # ---------------------------------------------------------------------------
@@ -1008,6 +1011,42 @@ def r2_line_kinds(corpus: Corpus, rep: Report, tier: str):
                 rep.ok(R2, k, site, f"{conv}: {shape} ({why})")
             else:
                 rep.violation(R2, k, site, f"{cfi.qualname} -> {sink.name}(): {why}, i.e. {CONV_DOC[conv]}; the call passes {shape}: {verdict}")
+    # the text handed to a judged site keeps its head: stripping leading blank lines / slicing the front moves every line up
+    TEXT_ARG = {"nested_render_text": (0, "text"), "run_directive": (2, "content")}
+    for sink_fq in LINE_SINKS:
+        sink = corpus.func(sink_fq.replace("myst_parser.", "", 1))
+        tidx, tname = TEXT_ARG[sink.name]
+        for cfi, call in sorted(_real_callers(corpus, sink), key=lambda x: (x[0].fq, x[1].lineno)):
+            conv = NRT_CONVENTION.get((sink.name, cfi.fq), (None, ""))[0]
+            if conv in (None, NOT_JUDGED):
+                continue
+            e = arg_or_kw(call, tidx, tname)
+            chain = []
+            for _hop in range(6):
+                if e is None:
+                    break
+                if isinstance(e, ast.Name) and _owner_of_param(cfi, e.id) is None:
+                    ds = [v for _s, v, how in _defs(cfi, e.id) if how == "assign" and v is not None]
+                    if len(ds) != 1 or len(_defs(cfi, e.id)) != 1:
+                        break
+                    e = ds[0]
+                elif isinstance(e, ast.Call) and isinstance(e.func, ast.Attribute) and e.func.attr in ("strip", "lstrip", "rstrip", "expandtabs", "replace"):
+                    chars = e.args[0].value if e.args and isinstance(e.args[0], ast.Constant) and isinstance(e.args[0].value, str) else (None if not e.args else "?")
+                    if e.func.attr in ("strip", "lstrip") and (chars is None or chars == "?" or "\n" in chars):
+                        chain.append(e)
+                    e = e.func.value
+                elif isinstance(e, ast.Subscript) and isinstance(e.slice, ast.Slice) and e.slice.lower is not None and conv != START:
+                    chain.append(e)
+                    e = e.value
+                else:
+                    break
+            k = f"{cfi.fq}|{sink.name}|text keeps its leading lines"
+            site = cfi.module.site(call)
+            if chain:
+                op = chain[0]
+                rep.violation(R2, uniq(k), cfi.module.site(op), f"the text passed to {sink.name}() is `{short(op, 50)}`: leading (blank) lines are removed from it while the line argument still names the place of the unstripped text, so every nested line is reported one too low per removed line")
+            else:
+                rep.ok(R2, uniq(k), site)
     for ck in NRT_CONVENTION:
         if ck not in seen_conv:
             rep.error(R2, f"convention table entry {ck} matches no call site any more")
@@ -2132,6 +2171,11 @@ def r7_start_accumulator(corpus: Corpus, rep: Report, tier: str):
                 if how == "assign" and v is not None and st is not None:
                     for kind, lower in _head_cuts(v, T, K, fi):
                         cuts.append((st, kind, lower))
+                    for c in ast.walk(v):
+                        if isinstance(c, ast.Call) and isinstance(c.func, ast.Attribute) and c.func.attr in ("strip", "lstrip") and isinstance(c.func.value, ast.Name) and c.func.value.id == T:
+                            chars = c.args[0].value if c.args and isinstance(c.args[0], ast.Constant) and isinstance(c.args[0].value, str) else None
+                            if not c.args or chars is None or "\n" in chars:
+                                rep.violation(R7, f"{fi.fq}|{sink_name}|strips {short(st, 60)}", fi.module.site(st), f"`{short(st, 60)}` strips leading blank lines from the text; their number is not added to `{V}`, so the rest of the file is reported too low")
             reported: set[int] = set()
             for st, kind, lower in cuts:
                 ln = _names(lower)
@@ -2171,7 +2215,70 @@ def r7_start_accumulator(corpus: Corpus, rep: Report, tier: str):
     rep.expect_min(R7, 3, "START call sites and head cuts of the included text (start-line slice, start-after cut)")
 
 
-RULES = [r1_stamping, r2_line_kinds, r3_shift_once, r4_lossy_round_trip, r5_source_path, r6_body_offset_pairing, r7_start_accumulator]
+# ---------------------------------------------------------------------------
+# R8 a result computed from a line is not replayed from a cache whose key omits that line
+
+
+def _local_container(fi: FunctionInfo, e: ast.expr) -> bool:
+    """Is the subscripted/looked-up container a fresh local of this function (so it cannot outlive the call)?"""
+    if isinstance(e, ast.Name):
+        ds = _defs(fi, e.id)
+        return bool(ds) and _owner_of_param(fi, e.id) is None and all(
+            how == "assign" and isinstance(v, (ast.Dict, ast.DictComp, ast.List, ast.Call)) and not (isinstance(v, ast.Call) and isinstance(v.func, ast.Attribute)) for _s, v, how in ds
+        )
+    return False
+
+
+@rule(R8)
+def r8_line_free_cache(corpus: Corpus, rep: Report, tier: str):
+    rep.rule(R8, "a value computed from a source line (warnings, nodes, parse results) is never stored in a long-lived mapping under a key that omits that line")
+    K = _kinds(corpus)
+    g = get_callgraph(corpus)
+    n = 0
+    for fi in _funcs(corpus):
+        stores: list[tuple[ast.AST, ast.expr, ast.expr, ast.expr]] = []  # (stmt, container, key, value)
+        for x in fi.local_nodes():
+            if isinstance(x, ast.Assign):
+                for t, tv in _assign_pairs(x):
+                    if isinstance(t, ast.Subscript) and not isinstance(t.slice, ast.Slice):
+                        stores.append((x, t.value, t.slice, tv))
+            elif isinstance(x, ast.Call) and isinstance(x.func, ast.Attribute) and x.func.attr == "setdefault" and len(x.args) == 2:
+                stores.append((x, x.func.value, x.args[0], x.args[1]))
+        for st, cont, key, val in stores:
+            if _local_container(fi, cont):
+                continue
+            # the cached value: look through one local definition
+            vals = [val]
+            if isinstance(val, ast.Name) and _owner_of_param(fi, val.id) is None:
+                vals = [v for _s, v, how in _defs(fi, val.id) if how == "assign" and v is not None] or [val]
+            line_args: list[tuple[ast.Call, ast.expr]] = []
+            for v in vals:
+                for c in [c for c in ast.walk(v) if isinstance(c, ast.Call)]:
+                    if not any(isinstance(t, FunctionInfo) for t in g.resolve_call(c, fi)):
+                        continue  # only package functions: their line parameter ends up in warnings / nodes
+                    for a in list(c.args) + [kw.value for kw in c.keywords]:
+                        if K.kind(a, fi) & {L1, PK}:
+                            line_args.append((c, a))
+            if not line_args:
+                continue
+            n += 1
+            knames = _names(key)
+            for nm in list(knames):
+                if _owner_of_param(fi, nm) is None:
+                    for _s, v, how in _defs(fi, nm):
+                        if how == "assign" and v is not None:
+                            knames |= _names(v)
+            call, la = line_args[0]
+            k = f"{_key_owner(corpus, fi).fq}|{short(cont, 30)}[{short(key, 40)}] = {short(call.func, 40)}(...{short(la, 20)}...)"
+            site = fi.module.site(st)
+            if _names(la) & knames:
+                rep.ok(R8, k, site, "the key contains the line")
+            else:
+                rep.violation(R8, k, site, f"`{short(st, 70)}` keeps the result of `{short(call.func, 40)}(...)`, which was computed for line `{short(la, 20)}`, in `{short(cont, 30)}` under the key `{short(key, 50)}` that does not contain that line: the same construct further down the document (or in another document) gets the first occurrence's warnings/lines replayed")
+    rep.ok(R8, "package|long-lived caches of line-dependent results", "myst_parser", f"{n} cache store(s) of a line-dependent package call found and judged")
+
+
+RULES = [r1_stamping, r2_line_kinds, r3_shift_once, r4_lossy_round_trip, r5_source_path, r6_body_offset_pairing, r7_start_accumulator, r8_line_free_cache]
 
 
 # ---------------------------------------------------------------------------
@@ -2434,6 +2541,39 @@ def mutants(corpus: Corpus):
     a = arg_or_kw(c, 1, "lineno") if c else None
     add("c04-nested-parse-drops-input-offset", R2, mk, a, "self._lineno", "nested_parse")
 
+    # ---- R2: the text handed on keeps its leading lines
+    f = mk.func("MockState.nested_parse")
+    c = _nrt_call(f)
+    t0 = arg_or_kw(c, 0, "text") if c else None
+    add("c04-nested-parse-strips-blank-lines", R2, mk, t0, f'{unparse(t0)}.strip("\\n")' if t0 is not None else "", "text keeps its leading lines", canary=True)
+    f = base.func("DocutilsRenderer.render_colon_fence")
+    c = _nrt_call(f)
+    t0 = arg_or_kw(c, 0, "text") if c else None
+    add("c04-colon-fence-content-lstripped", R2, base, t0, f"{unparse(t0)}.lstrip()" if t0 is not None else "", "text keeps its leading lines")
+    f = base.func("DocutilsRenderer.render_directive")
+    c = find_node(f, lambda n: isinstance(n, ast.Call) and isinstance(n.func, ast.Attribute) and n.func.attr == "run_directive")
+    t0 = arg_or_kw(c, 2, "content") if c is not None else None
+    add("c04-directive-content-head-sliced", R2, base, t0, f"{unparse(t0)}[1:]" if t0 is not None else "", "text keeps its leading lines")
+
+    # ---- R8: line-dependent results cached under a line-free key
+    f = dm.func("parse_directive_text")
+    st = find_stmt(f, lambda s: isinstance(s, ast.Assign) and isinstance(s.value, ast.Call) and unparse(s.value.func) == "_parse_directive_options")
+    if st is not None:
+        ind_ = " " * st.col_offset
+        seg = ast.get_source_segment(dm.src, st.value)
+        src2 = splice(dm.src, st, f"key = (directive_class, content, validate_options, str(additional_options))\n{ind_}result = _OPTIONS_CACHE.get(key) or {seg}\n{ind_}_OPTIONS_CACHE[key] = result")
+        src2 = src2.replace("@dataclass\nclass ParseWarnings:", "_OPTIONS_CACHE: dict = {}\n\n\n@dataclass\nclass ParseWarnings:", 1)
+        out.append(Mutant("c04-option-block-cache-key-without-line", R8, dm.rel, src2, expect="_OPTIONS_CACHE", canary=True))
+    else:
+        out.append(("c04-option-block-cache-key-without-line", "call of _parse_directive_options not found"))
+    f = base.func("DocutilsRenderer.run_directive")
+    st = find_stmt(f, lambda s: isinstance(s, ast.Assign) and isinstance(s.value, ast.Call) and unparse(s.value.func) == "parse_directive_text")
+    if st is not None:
+        seg = ast.get_source_segment(base.src, st.value)
+        add("c04-parsed-directive-cached-per-text", R8, base, st.value, f"self.document.settings.__dict__.setdefault('_myst_parsed', {{}}).setdefault((name, first_line, content), {seg})", "parse_directive_text")
+    else:
+        out.append(("c04-parsed-directive-cached-per-text", "call of parse_directive_text not found"))
+
     # ---- R7
     f = mk.func("MockIncludeDirective.run")
     aug = find_stmt(f, lambda s: isinstance(s, ast.AugAssign) and unparse(s.target) == "startline" and any(isinstance(a_, ast.For) for a_ in ancestors(s)))
@@ -2441,6 +2581,8 @@ def mutants(corpus: Corpus):
     add("c04-start-after-cut-not-counted", R7, mk, aug, "pass", "cut file_content")
     st = find_stmt(f, lambda s: isinstance(s, ast.Assign) and unparse(s.targets[0]) == "startline" and isinstance(s.value, ast.BoolOp))
     add("c04-start-line-count-reset", R7, mk, st.value if st is not None else None, "0", "overwrites")
+    if st is not None:
+        add("c04-included-text-leading-blank-lines-stripped", R7, mk, st, ast.get_source_segment(mk.src, st) + "\n" + " " * st.col_offset + 'file_content = file_content.lstrip("\\n")', "strips")
 
     f = base.func("DocutilsRenderer.dict_to_fm_field_list")
     st = find_stmt(f, lambda s: isinstance(s, ast.Assign) and unparse(s.targets[0]) == "field_node.source")
